@@ -53,13 +53,12 @@ class System:
         self.ck = ck
         self.K = K
         self.st = St(K)
+        self.st.free_extras = True
         self.inp = In()
         self.policy = policy
         self.memory_limit = memory_limit
         self.summaries = []
-        base = {v.decl().name() for v in self.st.vars() + self.inp.vars()}
-        if memory_limit is not None and z3.is_const(memory_limit):
-            base.add(memory_limit.decl().name())
+        self._base_names = None
         for cmd in cmds:
             for j in range(K):
                 if cmd == 'flush' and j > 0:
@@ -71,7 +70,11 @@ class System:
                     if s.status not in ('ok', 'panic'):
                         continue
                     exprs = list(s.pc) + [x for lst in ('present', 'val', 'flags', 'cas', 'ts', 'ttl') for x in s.post[lst]] + \
-                        [s.post['cas_id'], s.post['usage']] + [x for x in (s.rcas, s.rnum, s.rval) if x is not None]
+                        [s.post['cas_id'], s.post['usage']] + [x for x in (s.rcas, s.rnum, s.rval) if x is not None] + \
+                        [x for x in s.post.get('extra', {}).values() if z3.is_expr(x)]
+                    base = {v.decl().name() for v in self.st.vars() + self.inp.vars()}
+                    if memory_limit is not None and z3.is_const(memory_limit):
+                        base.add(memory_limit.decl().name())
                     fc = free_consts(exprs)
                     s.locals = [v for n, v in fc.items() if n not in base and n not in ('vempty', 'wire')]
                     s.evicts = any(e[0] == 'map.remove' and 'evict' in str(e) for e in s.events)
@@ -94,6 +97,8 @@ class System:
                 cs += [S2.present[i] == R(P['present'][i]), S2.val[i] == R(P['val'][i]), S2.flags[i] == R(P['flags'][i]),
                        S2.cas[i] == R(P['cas'][i]), S2.ts[i] == R(P['ts'][i]), S2.ttl[i] == R(P['ttl'][i])]
             cs += [S2.cas_id == R(P['cas_id']), S2.usage == R(P['usage'])]
+            for key in sorted(self.st.extra):
+                cs.append(S2.extra[key] == R(P['extra'].get(key, self.st.extra[key])))
             if s.rcas is not None:
                 cs.append(tr.rcas[t] == R(s.rcas))
             if s.rnum is not None:
@@ -106,11 +111,14 @@ class System:
     def init(self, tr):
         S = tr.S[0]
         cs = [z3.Not(p) for p in S.present] + [S.cas_id == 1, S.usage == 0, z3.ULT(S.now, 1 << 30)]
+        cs += [S.extra[key] == self.st.extra_init[key] for key in S.extra]
         cs += [vlen(vempty) == 0]
         return cs
 
     def unroll(self, k):
         tr = Trace(self.K, k)
+        for S in tr.S:
+            S.clone_extras_from(self.st)
         cs = self.init(tr)
         for t in range(k):
             cs.append(self.step(tr, t))
